@@ -35,6 +35,12 @@ pub struct Sc {
     /// -H / -L before the starting points (only without racing mutations)
     #[serde(default)]
     pub follow: Option<String>,
+    /// fixed arguments are added at run time (they are not part of the stored scenario) until
+    /// the substituted command line is this many bytes short of what the operating system
+    /// accepts under the limits in force (its ARG_MAX, the size of the environment, a pointer
+    /// per string): the kernel takes it, so CMD must run
+    #[serde(default)]
+    pub near_limit: Option<usize>,
 }
 
 const CMD2: &str = "CMD2";
@@ -170,11 +176,95 @@ pub fn split_for_execdir_bytes(p: &[u8]) -> (String, Vec<u8>) {
     }
 }
 
+/// A small tree and a command line that (once filled up at run time) ends a few hundred to a
+/// few thousand bytes under the operating system's limit.
+fn gen_near_limit(rng: &mut Rng) -> Sc {
+    let cfg = TreeCfg {
+        roots: vec!["t".into()],
+        max_entries: *rng.pick(&[0, 2, 5]),
+        max_depth: 2,
+        names: NameStyle::Simple,
+        link_weight: 0,
+        allow_loops: false,
+        outside: false,
+        fifo: false,
+        raw_byte: None,
+    };
+    let spec = gen_tree(rng, &cfg);
+    let mut find = FindScenario::new(spec, vec![]);
+    if rng.chance(1, 2) {
+        find.outcomes = gen_outcomes(rng, 8, true);
+    }
+    let mut sc = Sc {
+        find,
+        starts: vec!["t".into()],
+        sorted: true,
+        depth: false,
+        tests: vec![],
+        execdir: rng.chance(1, 3),
+        templates: vec![rng.pick(&["pre-{}", "{}", "{}.suf"]).to_string()],
+        after: vec![],
+        mindepth1: false,
+        follow: None,
+        second: None,
+        near_limit: Some(*rng.pick(&[300usize, 700, 1500, 2500, 3500, 4500, 5200])),
+    };
+    sc.render();
+    sc
+}
+
+/// The scenario with its command line filled up (see `Sc::near_limit`).
+fn fill_to_limit(sc: &Sc, slack: usize) -> Sc {
+    let arg_max = crate::sys::arg_max() as usize;
+    let env: Vec<(std::ffi::OsString, std::ffi::OsString)> = std::env::vars_os().collect();
+    let env_bytes: usize = env.iter().map(|(k, v)| k.len() + v.len() + 2).sum();
+    // the longest substituted line decides: the deepest path of the tree
+    let longest = sc.find.tree.nodes.iter().map(|n| n.path().len()).max().unwrap_or(1);
+    let fixed: usize = CMD.len() + 1 + sc.templates.iter().map(|t| substitute(t, &vec![b'p'; longest]).len() + 1).sum::<usize>();
+    const PIECE: usize = 130_000;
+    let nfill = arg_max / PIECE + 1;
+    let pointers = 8 * (1 + sc.templates.len() + nfill + env.len() + 2);
+    let fill_total = arg_max.saturating_sub(env_bytes + pointers + fixed + slack);
+    let mut out = sc.clone();
+    let mut left = fill_total;
+    let mut fillers = vec![];
+    for k in 0..nfill {
+        // every piece costs its length and a terminator
+        let share = if k + 1 == nfill { left } else { (fill_total / nfill).min(left) };
+        if share < 2 {
+            break;
+        }
+        fillers.push("F".repeat(share - 1));
+        left -= share;
+    }
+    if slack % 200 == 0 {
+        out.templates.extend(fillers);
+    } else {
+        fillers.extend(out.templates.drain(..));
+        out.templates = fillers;
+    }
+    out.render();
+    out
+}
+
+/// Whether the kernel takes a command line of these strings under the limits in force now.
+fn kernel_accepts(args: &[Vec<u8>]) -> bool {
+    use std::os::unix::ffi::OsStrExt;
+    let mut c = std::process::Command::new("/bin/true");
+    for a in args {
+        c.arg(std::ffi::OsStr::from_bytes(a));
+    }
+    matches!(c.status(), Ok(st) if st.success())
+}
+
 impl Property for C09 {
     const ID: &'static str = "C09";
     type Sc = Sc;
 
     fn generate(rng: &mut Rng, _tier: Tier) -> Sc {
+        if rng.chance(1, 150) {
+            return gen_near_limit(rng);
+        }
         let mutate = rng.chance(1, 4);
         let cfg = TreeCfg {
             roots: vec!["t".into()],
@@ -300,6 +390,7 @@ impl Property for C09 {
             mindepth1,
             follow: if !mutate && rng.chance(1, 5) { Some(rng.pick(&["-L", "-H"]).to_string()) } else { None },
             second: if rng.chance(1, 4) { Some((rng.chance(1, 2), rng.pick(&["{}", "{}", "x{}y", "{}{}"]).to_string())) } else { None },
+            near_limit: None,
         };
         sc.render();
         sc
@@ -313,6 +404,25 @@ impl Property for C09 {
     }
 
     fn check(sc: &Sc, ctx: &mut Ctx, rep: &mut Report) {
+        let filled;
+        let sc = match sc.near_limit {
+            Some(slack) => {
+                ctx.prepare_process(sc.find.rlimit_stack, sc.find.env.as_deref());
+                filled = fill_to_limit(sc, slack);
+                // the kernel is the judge: the longest line this run can build must be one it takes
+                let longest = sc.find.tree.nodes.iter().map(|n| n.path().len()).max().unwrap_or(1);
+                let mut line: Vec<Vec<u8>> = vec![CMD.as_bytes().to_vec()];
+                line.extend(filled.templates.iter().map(|t| substitute(t, &vec![b'p'; longest])));
+                if !kernel_accepts(&line[1..]) {
+                    rep.probe("near_limit_line_not_taken_by_this_kernel");
+                    return;
+                }
+                rep.probe("command_line_a_few_kib_under_the_system_limit");
+                rep.want_sample = false; // (megabytes of filler)
+                &filled
+            }
+            None => sc,
+        };
         let root = ctx.scratch.join("A");
         let _ = std::env::set_current_dir(&ctx.scratch);
         crate::sys::wipe(&root);
